@@ -111,6 +111,8 @@ def wl_bloom(ctx, rng, case):
             "frombytes(memoryview)": lambda: cls.frombytes(memoryview(data), **bl.kw_hash(hf)),
             "frombytes(memoryview of bytearray)": lambda: cls.frombytes(memoryview(bytearray(data)), **bl.kw_hash(hf)),
             "filepath": lambda: cls(filepath=p, **bl.kw_hash(hf)),
+            # the create-or-open idiom: sizing arguments given ALONG WITH an existing file are ignored, the file decides
+            "filepath + stray sizing arguments": lambda: cls(est_elements=rng.randint(1, 500), false_positive_rate=rng.choice([0.3, 0.05, 0.011, 0.001]), filepath=p, **bl.kw_hash(hf)),
             "hex_string": lambda: cls(hex_string=hx, **bl.kw_hash(hf)),
         }
         probe = keys + ["never-added-1", b"never-added-2"]
@@ -237,7 +239,8 @@ def wl_expanding(ctx, rng, case):
         loaders = {"frombytes": lambda: cls.frombytes(data, **extra, **bl.kw_hash(hf)), "filepath": lambda: cls(filepath=p, **extra, **bl.kw_hash(hf)),
                    "frombytes(memoryview)": lambda: cls.frombytes(memoryview(data), **extra, **bl.kw_hash(hf)),
                    "frombytes(bytearray)": lambda: cls.frombytes(bytearray(data), **extra, **bl.kw_hash(hf)),
-                   "filepath(Path)": lambda: cls(filepath=_Path(p), **extra, **bl.kw_hash(hf))}
+                   "filepath(Path)": lambda: cls(filepath=_Path(p), **extra, **bl.kw_hash(hf)),
+                   "filepath + stray sizing arguments": lambda: cls(est_elements=rng.randint(1, 500), false_positive_rate=rng.choice([0.3, 0.05, 0.011, 0.001]), filepath=p, **extra, **bl.kw_hash(hf))}
         acc = [("expansions", lambda o: o.expansions), ("elements_added", lambda o: o.elements_added), ("estimated_elements", lambda o: o.estimated_elements),
                ("false_positive_rate (as float32)", lambda o: f32(o.false_positive_rate)),
                ("per-filter counts and bits", lambda o: [(c, b) for c, b in refimpl.parse_expanding(bytes(o))["filters"]])]
@@ -316,7 +319,8 @@ def wl_sketch(ctx, rng, case):
         loaders = {"frombytes": lambda: cls.frombytes(data, **extra, **bl.kw_hash(hf)), "filepath": lambda: cls(filepath=p, **extra, **bl.kw_hash(hf)),
                    "frombytes(memoryview)": lambda: cls.frombytes(memoryview(data), **extra, **bl.kw_hash(hf)),
                    "frombytes(bytearray)": lambda: cls.frombytes(bytearray(data), **extra, **bl.kw_hash(hf)),
-                   "filepath(Path)": lambda: cls(filepath=_Path(p), **extra, **bl.kw_hash(hf))}
+                   "filepath(Path)": lambda: cls(filepath=_Path(p), **extra, **bl.kw_hash(hf)),
+                   "filepath + stray sizing arguments": lambda: cls(width=rng.randint(1, 90), depth=rng.randint(1, 9), filepath=p, **extra, **bl.kw_hash(hf))}
         acc = [("width", lambda o: o.width), ("depth", lambda o: o.depth), ("elements_added", lambda o: o.elements_added), ("query_type", lambda o: o.query_type),
                ("counters", lambda o: refimpl.parse_cms(bytes(o))["cells"])]
         if not sized:
@@ -417,7 +421,8 @@ def wl_cuckoo(ctx, rng, case):
 
             loaders = {"frombytes": lambda: resupply(cls.frombytes(data, **kw)), "filepath": lambda: resupply(cls(filepath=p, **kw)),
                        "filepath(Path)": lambda: resupply(cls(filepath=_Path(p), **kw)),
-                       "filepath(finger_size)": lambda: resupply(cls(filepath=p, finger_size=cfg.finger_size, **kw))}
+                       "filepath(finger_size)": lambda: resupply(cls(filepath=p, finger_size=cfg.finger_size, **kw)),
+                       "filepath + stray sizing arguments": lambda: resupply(cls(capacity=rng.randint(1, 99), bucket_size=rng.randint(1, 7), max_swaps=cfg.max_swaps, filepath=p, **kw))}
 
         def table(o):
             if cfg.counting:
